@@ -18,7 +18,7 @@ ASSUMPTIONS = ['curves are evaluated by the oracle in Python floats (rel. 1e-12)
                'range limits are compared only between equivalent calls (C07 owns their values)']
 BUDGET = {
     'quick': dict(examples=2400, time_s=300),
-    'thorough': dict(examples=100000, time_s=1800),
+    'thorough': dict(examples=100000, time_s=1800, fuzz=dict(workers=8, runs=6000, max_s=300)),
 }
 
 
